@@ -22,6 +22,12 @@ func (s StringSubscript) StartIndex() Expression {
 	return s.startIndex
 }
 
+// HasEndIndex reports whether the subscript has an end index of its own (s[a:b]);
+// s[i] has not, its end is its start.
+func (s StringSubscript) HasEndIndex() bool {
+	return s.endIndex != nil
+}
+
 func (s StringSubscript) EndIndex() Expression {
 	endIndex := s.endIndex
 
